@@ -2,7 +2,7 @@
 
    A case line is one history:
      h <max> <qsize> <fixed> <n> <spec_0> .. <spec_{n-1}> | <decision> <obs> <state> <decision> <obs> <state> ...
-   spec: d:<pred> (direct call) | p<on>:<pred> (pipelined on call <on>); pred = - or the call
+   spec: d:<pred> / s:<pred> (direct call made with Recv / Send) | p<on>:<pred>:<field> (pipelined on call <on>); pred = - or the call
    issued just before by the same caller.
    decision: I<c> issue, A<c> ack, R<c>o|e implementation returns ok/error, T<p>o|e target of a
    delivered pipelined call returns, X<c> cancel the caller's context, Z Shutdown.
@@ -27,6 +27,10 @@ let n2i = int_of_nat
 let i2n = nat_of_int
 
 let show_cls = function COk -> "ok" | CErr o -> "e" ^ string_of_int (n2i o) | CCtx -> "ctx" | CFail -> "fail"
+(* calls made with Send are observed through their Answer, which annotates errors: only ok / err *)
+let send_mode : bool array ref = ref [||]
+let show_cls_for i k =
+  if i < Array.length !send_mode && !send_mode.(i) then (match k with COk -> "ok" | _ -> "err") else show_cls k
 
 let visible = function
   | EvBegin c -> Some ("b" ^ string_of_int (n2i c))
@@ -64,7 +68,7 @@ let internal_tids n c =
 (* state projection, same format as the harness prints *)
 let state_obs p n c =
   let compls = List.filter_map (fun i -> let l = compl c (i2n i) in
-    if l = [] then None else Some (Printf.sprintf "%d=%s" i (String.concat "+" (List.rev_map show_cls l)))) (ids n) in
+    if l = [] then None else Some (Printf.sprintf "%d=%s" i (String.concat "+" (List.rev_map (show_cls_for i) l)))) (ids n) in
   let returned = List.filter_map (fun i -> let x = i2n i in
     match p.p_kind x with
     | Direct -> if spc c x = SDone then Some (Printf.sprintf "%d%s" i (if gotp c x then "p" else "n")) else None
@@ -103,11 +107,12 @@ let explore p n (starts : (config * string list) list) (sobs : string) : config 
   !out
 
 let parse_spec s =
-  let i = String.index s ':' in
-  let k = String.sub s 0 i and pr = String.sub s (i + 1) (String.length s - i - 1) in
-  let kind = if k = "d" then Direct else Pipe (i2n (int_of_string (String.sub k 1 (String.length k - 1)))) in
-  let pred = if pr = "-" then None else Some (i2n (int_of_string pr)) in
-  (kind, pred)
+  match String.split_on_char ':' s with
+  | k :: pr :: _ ->
+    let kind = if k = "d" || k = "s" then Direct else Pipe (i2n (int_of_string (String.sub k 1 (String.length k - 1)))) in
+    let pred = if pr = "-" then None else Some (i2n (int_of_string pr)) in
+    (kind, pred)
+  | _ -> failwith "spec"
 
 let parse_decision tok =
   let num s = i2n (int_of_string s) in
@@ -133,9 +138,9 @@ let summary p n c =
   List.iter (function EvBegin _ -> incr cur; if !cur > !mx then mx := !cur
                     | EvImplRet _ -> decr cur | _ -> ()) tr;
   let compls = List.map (fun i -> let l = compl c (i2n i) in
-    Printf.sprintf "%d:%s" i (if l = [] then "-" else String.concat "+" (List.rev_map show_cls l))) (ids n) in
+    Printf.sprintf "%d:%s" i (if l = [] then "-" else String.concat "+" (List.rev_map (show_cls_for i) l))) (ids n) in
   let deliv = List.filter_map (fun e -> match e with EvDeliver _ -> visible e | _ -> None) tr in
-  Printf.sprintf "ok order=%s maxrun=%d compl=%s shut=%d deliv=%s%s"
+  Printf.sprintf "ok order=%s maxrun=%d compl=%s shut=%d deliv=%s viol=-%s"
     (String.concat "," order) !mx (String.concat "," compls) (n2i (shcount c))
     (String.concat "," deliv) (if panicked c then " PANIC" else "")
 
@@ -144,6 +149,11 @@ let run_case line =
   | "h" :: mx :: qs :: fx :: ns :: rest ->
     let n = int_of_string ns in
     let specs = Array.of_list (List.map parse_spec (take n rest)) in
+    (* a call is observed coarsely (ok / err) when the direct call at the root of its pipeline was made with Send *)
+    let rec root_send i = match fst specs.(i) with
+      | Direct -> let s = List.nth rest i in String.length s > 0 && s.[0] = 's'
+      | Pipe on -> let o = n2i on in if o < i then root_send o else false in
+    send_mode := Array.init n root_send;
     let rec drop k l = if k <= 0 then l else match l with [] -> [] | _ :: r -> drop (k - 1) r in
     let items = match drop n rest with "|" :: r -> r | _ -> failwith "sep" in
     let get x = let i = n2i x in if i < n then specs.(i) else (Direct, None) in
